@@ -309,13 +309,49 @@ class Run:
         self.notes = []
         self.impl_timeout = 2.0 if tier == 'quick' else 10.0
         self.exhaustive = False
+        self.escalated = False
+        self.ties = []
 
     @property
     def quick(self):
-        return self.tier == 'quick'
+        # a broken source tie escalates a quick run to the thorough tier's search sizes
+        return self.tier == 'quick' and not self.escalated
 
     def scale(self, q, t):
         return q if self.quick else t
+
+    # ---- source tie (translator) -----------------------------------------------------------------
+    def source_tie(self, units, module, theorems):
+        """Second tie between model and code: the anchored source text was translated to Lean on this run
+        (harness/py2lean.py -> lean/GeoVerif/Gen/Src*.lean) and `module` proves the translation equal to the hand-written
+        model.  The tie is *broken* when the current source is outside the translated subset, a pinned helper changed, or
+        the equalities no longer check.  A broken tie is not a violation by itself (the correspondence check still ties
+        the model to the code), but the source is no longer known to say what the model says: the run escalates its
+        search for a failing input to the thorough tier's sizes."""
+        import extract
+        info = {'units': list(units), 'module': module, 'theorems': len(theorems), 'status': 'intact'}
+        why = [f'{u}: {extract.SOURCE_TIE[u]}' for u in units if extract.SOURCE_TIE.get(u)]
+        if why:
+            info.update(status='untranslatable', detail=why)
+        else:
+            ok, log = lake_build([module])
+            if not ok:
+                errs = [ln for ln in log.split('\n') if ln.startswith('error:')][:6]
+                info.update(status='equivalence-not-proved', detail=errs or [log[-800:]])
+            else:
+                res, _text = audit_axioms(self.pid + '_src', [module], theorems)
+                bad = {t: a for t, (o, a) in res.items() if not o}
+                if bad:
+                    info.update(status='equivalence-not-proved', detail=[f'{t}: {a}' for t, a in bad.items()])
+                else:
+                    info['axioms'] = sorted({a for _t, (_o, axs) in res.items() for a in axs})
+        self.ties.append(info)
+        if info['status'] != 'intact':
+            self.escalated = True
+            self.impl_timeout = 10.0
+            print(f'[{self.pid}] source tie {"/".join(units)} broken ({info["status"]}): {"; ".join(map(str, info["detail"]))[:400]}')
+            print(f'[{self.pid}] escalating the search for a failing input to the thorough tier')
+        return info['status'] == 'intact'
 
     # ---- proof obligations ---------------------------------------------------------------------
     def prove(self, modules, theorems, extra_targets=()):
@@ -506,6 +542,9 @@ class Run:
         }
         if 'leanchecker' in self.proof:
             cov['leanchecker'] = self.proof['leanchecker']
+        if self.ties:
+            cov['source_tie'] = self.ties
+            cov['escalated_to_thorough_sizes'] = bool(self.escalated)
         if extra_cov:
             cov.update(extra_cov)
         ev = {'property_id': self.pid, 'tier': self.tier, 'seed': self.seed, 'level': 'proof',
